@@ -271,7 +271,12 @@ def build_host(host):
             spec.factory = ReprCarrier('factory')
             spec.factory.specs = [spec]
             spec.parent = spec
-            arg = [ReprCarrier('tmpl'), ('name.html', 2), {'template': ReprCarrier('t')}, b'raw.html', 7, spec, {'self': spec}][i % 7]
+            class StrRaises(ReprCarrier):
+                # describable (repr works), but not convertible to text
+                def __str__(self):
+                    raise RuntimeError('no text form')
+            arg = [ReprCarrier('tmpl'), ('name.html', 2), {'template': ReprCarrier('t')}, b'raw.html', 7, spec, {'self': spec}, StrRaises('nostr'),
+                   [StrRaises('in-a-list')]][i % 9]
             routes.append(Route(p, lambda: {'a': 1}, arg if host['factory'] else (lambda context: Response('r'))))
         elif kind == 'partial-render':
             routes.append(Route(p, lambda: {'a': 1}, K()))
